@@ -11,7 +11,9 @@ SPEC = {
                   "verifyRAs / Advertiser.handle by differential runs on RAs that went through the real ndp codec.",
     "level_note": "Trusted: Coq kernel + vm_compute; the Go driver, the ndp codec and the rendering of cases; domain names / URIs "
                   "are interned (equality only); durations are modelled on Z (time.Duration.Truncate = d - d rem m).",
-    "drivers": [{"pkg": "internal/corerad", "test": "TestVerifC12", "timeout": 900}],
+    "drivers": [{"pkg": "internal/corerad", "test": "TestVerifC12", "timeout": 900},
+                # through the real Advertiser.Run on links of every kind: what the interface looks like is not a side
+                {"pkg": "internal/corerad", "test": "TestVerifC12Run", "newgo": True, "timeout": 300, "arch386": []}],
     "known_classes": {},
     "rule": "exh: per aspect (hop limit, M, O, reachable, retransmit, MTU, prefix, route, RDNSS, DNSSL, captive portal) every "
             "pair (own value, peer value) of a 2..16 element domain (absent / equal / different / several options, same prefix "
